@@ -45,6 +45,9 @@ NAMES = ("a", "b", "c")
 # (`importlib.import_module("pkg.0001_initial")` works; Django migrations rely on it).
 ODD_NAMES = ("0a", "a-b", "class", "\u00e9")
 NAME_POOL = NAMES * 3 + ODD_NAMES
+# Names of the search-path directories themselves: each is a character prefix of others (lib / lib64 style), so that
+# "is this directory below that search path" cannot be decided on strings. Layouts without "dirs" use sp0, sp1, ...
+SP_DIR_NAMES = ("sp", "sp1", "sp10", "sp1x", "sp10y")
 NATIVE_EXT = tuple(importlib.machinery.EXTENSION_SUFFIXES)  # e.g. .cpython-312-x86_64-linux-gnu.so, .abi3.so, .so
 FOREIGN_EXT = (".cpython-38-x86_64-linux-gnu.so", ".cp312-win_amd64.pyd", ".pyd", ".cpython-312-darwin.so")
 PYCACHE_TAG = sys.implementation.cache_tag  # cpython-312
@@ -172,7 +175,8 @@ def layouts(max_depth: int = 3):
                 "pre": draw(st.lists(st.sampled_from(["# comment", "", "@missing"]), max_size=2)),
                 "post": draw(st.lists(st.sampled_from(["# comment", "", "@missing"]), max_size=1)),
             }
-        return {"paths": paths, "extra": extra, "pth": pth}
+        dirs = draw(st.permutations(SP_DIR_NAMES))[: npaths + 1]  # the last one names the .pth-added directory
+        return {"paths": paths, "extra": extra, "pth": pth, "dirs": list(dirs)}
 
     return layout()
 
@@ -198,13 +202,14 @@ def materialise(layout: dict, root: Path) -> list[Path]:
     """Write the layout under `root` (which must not exist yet) and return the search paths to pass."""
     root.mkdir(parents=True)
     paths = []
+    names = layout.get("dirs") or [f"sp{i}" for i in range(len(layout["paths"]))] + ["extra"]
     for i, tree in enumerate(layout["paths"]):
-        sp = root / f"sp{i}"
+        sp = root / names[i]
         _write_tree(sp, tree)
         paths.append(sp)
     pth = layout.get("pth")
     if pth is not None and layout.get("extra") is not None:
-        extra = root / "extra"
+        extra = root / names[len(layout["paths"])]
         _write_tree(extra, layout["extra"])
         lines = []
         for tok in pth["pre"]:
@@ -544,6 +549,9 @@ def features(layout: dict) -> set[str]:
     f: set[str] = set()
     trees = list(layout["paths"]) + ([layout["extra"]] if layout.get("extra") is not None and layout.get("pth") else [])
     f.add(f"paths:{len(layout['paths'])}")
+    used = (layout.get("dirs") or [])[: len(trees)]
+    if any(a != b and b.startswith(a) and i < j for i, a in enumerate(used) for j, b in enumerate(used)):
+        f.add("search-path-name-is-prefix-of-a-later-one")
     if layout.get("pth"):
         f.add("pth")
     tops = [t for t in trees if TOP in t or f"{TOP}.py" in t]
